@@ -181,8 +181,12 @@ def run_relay_race(seed, tape, opts):
     relay = w.start_relay()
     w.ping = 30.0
     w.topo = "both+relay"
+    # the relay may be configured on one side only: the other side learns of
+    # it from the connection-hints messages alone, in every generation
+    only = tape.pick((None, None, "A", "B"), "relay_only_on")
     for s in w.sides:
-        s.build_manager(relay=relay, ping_interval=30.0)
+        s.build_manager(relay=relay if only in (None, s.name) else None,
+                        ping_interval=30.0)
     direct = ("127.0.0.1", "10.1.0.1")
     for h in direct:
         sim.net.host_mode[h] = "hang"
@@ -265,6 +269,7 @@ def run_relay_race(seed, tape, opts):
             "stats": {"steps": sim.steps, "sim_s": sim.now() - 1000.0,
                       "notes": sim.notes},
             "sample": {"seed": seed, "topology": "both+relay",
+                       "relay_configured_on": only or "both",
                        "relay_only_losses": nloss}}
 
 
